@@ -226,7 +226,8 @@ CLAIM = {
             "dominating discriminant switches and equality tests, is compared with the Parquet specification's encoding table and with the "
             "decoder's width. This is decidable from code shape for every file; whether the decoders compute the right values is not decided. "
             "Plus a resumability rule: a decoder field with a loop-carried update that is read inside the per-value loop is not re-initialised "
-            "between the entry of `read` and the loop (decoding does not depend on how values are split over read calls). Plus the chunked-read cursor pairing of the column reader: a loop that subtracts the amount it hands to a page decoder from its remaining count advances the offset argument by the same amount. And every path that loads a dictionary page and marks the NULL slot first replaces the dictionary array or its validity.",
+            "between the entry of `read` and the loop (decoding does not depend on how values are split over read calls). Plus the chunked-read cursor pairing of the column reader: a loop that subtracts the amount it hands to a page decoder from its remaining count advances the offset argument by the same amount. And every path that loads a dictionary page and marks the NULL slot first replaces the dictionary array or its validity."
+            " Plus SIBARMS: the HasDefinitions and NoDefinitions arms of every page decoder perform the same state-mutating calls.",
     "note": "trusted: rustc MIR; the specification table in rules/c10.py (Parquet format encodings page)",
     "technique": "static analysis: MIR reachability under discriminant constraints vs. a specification table (rustc_private driver)",
 }
